@@ -11,6 +11,8 @@ from vlib.observe import walk
 
 ID = "C10"
 LEVEL = "exploration"
+TECHNIQUE = 'bounded-exhaustive enumeration + Hypothesis; recomputation from the parent map for every node and ordered pair'
+LEVEL_TEXT = 'exploration with an exhaustive part: all forests up to the bound, every node and every ordered pair, plus random trees with clones and equal-comparing siblings'
 RULE = (
     "case = tree spec; exhaustive part: every ordered forest with <= N uniquely labelled nodes; Hypothesis part: "
     "trees with clones and with equal-comparing siblings (same data, distinct explicit data_ids). Per case every "
